@@ -80,10 +80,17 @@ def rand_installation(gen: int, rng: random.Random):
     return inst
 
 
+EDGE_TEMPS = [-50.0, -0.1, 0.0, 0.1, 149.9, 150.0]      # ends of the encodable range and zero (values both generations carry)
+
+
+def rand_temp(rng, lo=-100, hi=600):
+    return rng.choice(EDGE_TEMPS) if rng.random() < 0.15 else rng.randrange(lo, hi) / 10.0
+
+
 def rand_ac_status(inst, rng, n, error=None):
     s = inst.m["astat"]
     err = rng.choice([0, 0, 0, 5, 0xFFFE]) if error is None else error
-    temp = rng.randrange(-100, 600) / 10.0
+    temp = rand_temp(rng)
     if inst.gen == 4:
         return s.AcStatusData(n, rng.choice(list(s.AcPowerState)), rng.choice(list(s.AcMode)), rng.choice(list(s.AcFanSpeed)),
                               rng.random() < 0.5, rng.random() < 0.5, rng.randrange(64), temp, err)
@@ -98,12 +105,12 @@ def rand_zone_status(inst, rng, z):
     if inst.gen == 4:
         return s.GroupStatusData(z, rng.choice(list(s.GroupPowerState)), rng.choice(list(s.GroupControlMethod)), rng.random() < 0.5,
                                  rng.random() < 0.5, sensor, rng.choice(list(s.SensorBatteryStatus)),
-                                 (rng.randrange(-100, 500) / 10.0 if rng.random() < 0.8 else None) if sensor else None,
+                                 (rand_temp(rng, -100, 500) if rng.random() < 0.8 else None) if sensor else None,
                                  rng.randrange(101), rng.randrange(64) if sensor else None)
     return s.ZoneStatusData(z, rng.choice(list(s.ZonePowerState)), rng.random() < 0.5, rng.choice(list(s.ZoneControlMethod)), sensor,
                             rng.choice(list(s.SensorBatteryStatus)),
-                            (rng.randrange(-100, 500) / 10.0 if rng.random() < 0.8 else None) if sensor else None,
-                            rng.randrange(101), rng.choice([None, rng.randrange(100, 355) / 10.0]))
+                            (rand_temp(rng, -100, 500) if rng.random() < 0.8 else None) if sensor else None,
+                            rng.randrange(101), rng.choice([None, rng.randrange(100, 355) / 10.0, 10.0, 35.4]))
 
 
 def expected_zones(inst, spec) -> list[int]:
